@@ -35,6 +35,13 @@ REDUCED_LEAVES = [('num', '1'), ('num', '2.5E-3'), ('ref', 'A1'),
 TINY_LEAVES = [('num', '2'), ('ref', 'A1'), ('ref', '$B$2:C3'),
                ('str', '(: ')]
 BINOPS_REP = ['^', '*', '+', '&', '=']
+# defined names handed to the parser in the 'names' family, and the leaves
+# used there: a name used as a reference is replaced by its address, a text
+# literal spelt like a name stays that text
+NAMES = {'rate': 'Sheet1!B2', 'Tax_Rate': "'My Sheet'!A1:A3"}
+NAME_LEAVES = [('str', 'rate'), ('name', 'rate'), ('str', 'Tax_Rate'),
+               ('name', 'Tax_Rate'), ('str', 'RATE'), ('ref', 'A1'),
+               ('num', '1'), ('str', 'Sheet1!B2')]
 FUNCS = ['SUM', 'IF', 'sum', '_xlfn.CONCAT', '@SUM', 'Max']
 
 
@@ -67,6 +74,8 @@ def canon(tree):
         return ('err', tree[1])
     if k == 'ref':
         return ('ref',) + unquote_sheet(tree[1])
+    if k == 'name':
+        return ('ref',) + unquote_sheet(NAMES[tree[1]])
     if k == 'str':
         return ('text', tree[1])
     if k == 'call':
@@ -133,6 +142,10 @@ def features(tree, out=None):
             out.add('str:delimiter')
         if s == '':
             out.add('str:empty')
+        if s in NAMES:
+            out.add('str:spelt-like-a-defined-name')
+    elif k == 'name':
+        out.add('name:reference')
     elif k == 'num':
         if 'E' in tree[1]:
             out.add('num:sci')
@@ -165,7 +178,7 @@ def features(tree, out=None):
 
 def size(tree):
     k = tree[0]
-    if k in ('num', 'bool', 'err', 'ref', 'str'):
+    if k in ('num', 'bool', 'err', 'ref', 'str', 'name'):
         return 0
     if k == 'call':
         return 1 + sum(size(a) for a in tree[2])
@@ -200,7 +213,7 @@ def tokens(tree):
 
     def walk(t):
         k = t[0]
-        if k == 'num' or k == 'bool' or k == 'err' or k == 'ref':
+        if k in ('num', 'bool', 'err', 'ref', 'name'):
             emit(t[1], True, True)
         elif k == 'str':
             emit('"' + t[1].replace('"', '""') + '"', True, True)
